@@ -4,11 +4,12 @@ import ast
 
 from ..rulekit import *
 from ..norm import Normalizer, Poly
+from . import _kit_c18 as K
 
 R = Rules(
     "C18",
     explanation=(
-        "Structural clauses of the shutdown sequence decided on protocol.Context.shutdown, TokenManager and "
+        "Clauses of the shutdown sequence decided on protocol.Context.shutdown, TokenManager and "
         "MessageManager: Context.shutdown starts ri.shutdown() for every request interface and waits with the module "
         "constant SHUTDOWN_TIMEOUT (a positive number), returning on both outcomes; TokenManager.shutdown drains both "
         "request tables (every removed incoming request's stopper is called, every removed outgoing request receives "
@@ -17,23 +18,59 @@ R = Rules(
         "else; **timer ownership**: every loop.call_later handle created in messagemanager.py is either stored in a "
         "container that MessageManager.shutdown walks calling cancel() on that element, or its callback is inert (only "
         "removes a key from a dict of the same object); late dispatch_error calls return at once when the tables are "
-        "retired; send_message degrades to NON while shutting down.  Completion of the transports' own shutdown and "
-        "garbage collection are not decided."
+        "retired; send_message degrades to NON while shutting down.  Facts are located by what the code does: element "
+        "flow (of which container is the receiver of cancel()/shutdown() an element: for targets, unpacking, subscripts, "
+        "snapshots, comprehensions, generators bound to locals, loop+append builders), forward value flow (where a "
+        "removed entry / a timer handle ends up: locals, tuples, helpers, return values at every caller), callables "
+        "normalised (lambda, nested def, partial, bound method), and the checker's own finite-domain interpreter with "
+        "forking on open conditions for 'with the table retired, exactly this happens' (request, dispatch_error, "
+        "send_message).  Completion of the transports' own shutdown and garbage collection are not decided."
     ),
-    rule_text="drain-loop and pairing rules on CFGs, timer-handle ownership (who stores it, who cancels it), dominance of the retired-table guards",
+    rule_text="drain-loop and pairing rules on CFGs with element/value flow, timer-handle ownership (who stores it, who cancels it), path-sensitive abstract runs with the tables retired",
 )
 
 TM = "tokenmanager.TokenManager."
 MM = "messagemanager.MessageManager."
 
 
+def _resolved_name(ctx, fi, call):
+    """qualified name of the callee as far as imports tell (asyncio.wait, functools.partial, ...)"""
+    c = call_name(call)
+    return ctx.prog.resolve_in_module(fi.module, c) if c else None
+
+
+def _is_awaited(fi, call):
+    """The value of `call` is awaited: directly, or through a local it was bound to."""
+    cfg = cfg_of(fi)
+    if isinstance(cfg.parent.get(id(call)), ast.Await):
+        return True
+    for n in walk_no_nested(fi.node):
+        if isinstance(n, ast.Await) and isinstance(n.value, ast.Name) and resolve_local(fi.node, n.value) is call:
+            return True
+    return False
+
+
+def _walk_through_locals(fnode, e, depth=0):
+    """sub-expressions of e, looking through single-assignment locals (`x = f(); g(x)` is `g(f())`)"""
+    for n in ast.walk(e):
+        yield n
+        if isinstance(n, ast.Name) and isinstance(n.ctx, ast.Load) and depth < 4:
+            v = assigned_value(fnode, n.id)
+            if v is not None and len(writes_to_name(fnode, n.id)) == 1:
+                yield from _walk_through_locals(fnode, v, depth + 1)
+
+
 @R.clause("C18.a", "Context.shutdown shuts every request interface down and waits at most SHUTDOWN_TIMEOUT")
 def a(ctx):
     fi = ctx.prog.func("protocol.Context.shutdown")
-    waits = [c for c in calls_in(fi.node) if call_name(c) in ("asyncio.wait", "asyncio.wait_for")]
+    waits = [c for c in calls_in(fi.node) if _resolved_name(ctx, fi, c) in ("asyncio.wait", "asyncio.wait_for")]
     ctx.floor("asyncio.wait in Context.shutdown", len(waits), 1)
     for w in waits:
+        # the bound: keyword `timeout=` or the second positional argument, possibly through a local
         to = next((k.value for k in w.keywords if k.arg == "timeout"), None)
+        if to is None and len(w.args) > 1:
+            to = w.args[1]
+        to = resolve_local(fi.node, to) if to is not None else None
         ok = False
         detail = "timeout=%s" % (ast.unparse(to) if to is not None else None)
         if to is not None and chain(to):
@@ -46,44 +83,136 @@ def a(ctx):
                 except norm.NormError:
                     ok = False
         ctx.ob("the wait for the interfaces' shutdown is bounded by the constant SHUTDOWN_TIMEOUT", ok, fi, w, detail=detail)
-        arg = w.args[0] if w.args else None
-        comp = arg if isinstance(arg, (ast.ListComp, ast.GeneratorExp, ast.SetComp)) else None
-        ok2 = False
-        if comp is not None and len(comp.generators) == 1 and not comp.generators[0].ifs and chain(comp.generators[0].iter) == "self.request_interfaces":
-            tv = comp.generators[0].target
-            inner = [c for c in ast.walk(comp.elt) if isinstance(c, ast.Call) and isinstance(c.func, ast.Attribute) and c.func.attr == "shutdown" and same(c.func.value, tv)]
-            ok2 = bool(inner)
-        ctx.ob("shutdown() is started for every element of request_interfaces", ok2, fi, w)
-        ctx.ob("the wait is awaited", isinstance(ctx_parent(fi, w), ast.Await), fi, w)
-    cfg = cfg_of(fi)
+        # what is waited for: one element per request interface, each starting that interface's shutdown().
+        # The collection may be a comprehension, a list()/generator, a local built by a loop with append, or
+        # gather(*collection); the element is found by element flow, not by its spelling.
+        arg = w.args[0] if w.args else next((k.value for k in w.keywords if k.arg in ("fs", "fut", "aws")), None)
+        if isinstance(arg, ast.Call) and _resolved_name(ctx, fi, arg) == "asyncio.gather" and len(arg.args) == 1 and isinstance(arg.args[0], ast.Starred):
+            arg = arg.args[0].value
+        EF = K.ElemFlow(fi)
+        EF.elements(arg)
+        ok2 = bool(EF.elt_exprs) and not EF.filters
+        for expr, env in EF.elt_exprs:
+            started = False
+            for c in _walk_through_locals(fi.node, expr):
+                if isinstance(c, ast.Call) and isinstance(c.func, ast.Attribute) and c.func.attr == "shutdown" and not c.args:
+                    if EF.shape(c.func.value, env) == ("src", "self.request_interfaces", "iter", ()):
+                        started = True
+            ok2 = ok2 and started
+        ctx.ob("shutdown() is started for every element of request_interfaces", ok2, fi, w, detail="; ".join(EF.filters) or None)
+        ctx.ob("the wait is awaited", _is_awaited(fi, w), fi, w)
+        if _resolved_name(ctx, fi, w) == "asyncio.wait_for":
+            # unlike asyncio.wait, wait_for raises on time-out: shutdown returns on both outcomes only if that is caught
+            cfg = cfg_of(fi)
+            caught = False
+            child, p = w, cfg.parent.get(id(w))
+            while p is not None and p is not fi.node:
+                if isinstance(p, ast.Try) and any(child is x for x in p.body):
+                    for h in p.handlers:
+                        names = [] if h.type is None else [(chain(x) or "?").split(".")[-1] for x in (h.type.elts if isinstance(h.type, ast.Tuple) else [h.type])]
+                        if h.type is None or any(x in ("TimeoutError", "Exception", "BaseException") for x in names):
+                            caught = True
+                child, p = p, cfg.parent.get(id(p))
+            ctx.ob("a time-out of the bounded wait does not make shutdown raise", caught, fi, w)
     raises = [n for n in walk_no_nested(fi.node) if isinstance(n, ast.Raise)]
     ctx.ob("Context.shutdown returns normally whether or not interfaces are still busy (no raise)", not raises, fi, raises[0] if raises else fi.node, construct=stmt_text(raises[0]) if raises else "def shutdown")
 
 
-def ctx_parent(fi, node):
-    cfg = cfg_of(fi)
-    return cfg.parent.get(id(node))
+def _retire_stores(fi, field):
+    """assignments `self.<table> = None` (the value may come through a local)"""
+    out = []
+    for k, n in stores_to(fi.node, field, nested=False):
+        if k == "assign" and isinstance(n, (ast.Assign, ast.AnnAssign)) and n.value is not None:
+            v = resolve_local(fi.node, n.value)
+            if isinstance(v, ast.Constant) and v.value is None:
+                out.append(n)
+    return out
 
 
-def _drain(ctx, fi, table, what, check_item):
-    """The table is emptied by a loop that removes entries until none is left
-    (or a for loop over a snapshot) and then retired with None."""
+def _drain(ctx, fi, table, what, base_event, check_event):
+    """Every entry of the table is taken out (or visited on a snapshot) and treated, then the
+    table is retired with None.
+
+    Item sources, by what they do:
+      * removal: `t.pop(k)`, `t.popitem()`, through a local alias of the table or through a program
+        function that pops from its parameter and returns the result -- inside a loop that runs
+        while the table is known to be non-empty (any spelling of the emptiness test), or inside a
+        `for` over a snapshot of the table's keys;
+      * visit: the target of a `for` over a *snapshot* (`list(..)`, `tuple(..)`, comprehension, ...)
+        of `t.values()` / `t.items()`; iterating the live dict is not accepted: the treatment
+        (stopper / add_exception callbacks) removes entries from the very table.
+    From every source every normal path that continues the loop or leaves shutdown passes the
+    treatment of *that* item (value flow from the removed/visited value to the call)."""
     cfg = cfg_of(fi)
     field = "self." + table
-    nones = [n for k, n in stores_to(fi.node, field, nested=False) if k == "assign" and isinstance(n, ast.Assign) and isinstance(n.value, ast.Constant) and n.value.value is None]
+    nones = _retire_stores(fi, field)
     ctx.ob("%s is retired (set to None) by shutdown" % table, bool(nones), fi, nones[0] if nones else fi.node, construct=stmt_text(nones[0]) if nones else "def shutdown: %s" % table)
-    pops = [(k, n) for k, n in stores_to(fi.node, field, nested=False) if k in ("pop", "popitem")]
-    ctx.ob("%s are taken out of the table one by one" % what, bool(pops), fi, pops[0][1] if pops else fi.node, construct=stmt_text(pops[0][1]) if pops else "def shutdown: %s" % table)
-    for k, p in pops:
-        pn = cfg.loc1(p)
-        in_loop = pn in cfg.reach({pn})
-        emptied = guarded_by(cfg, pn, field, True) and in_loop
-        ctx.ob("removal runs in a loop that continues while the table is non-empty", emptied, fi, p)
-        check_item(cfg, p, pn)
+    EF = K.ElemFlow(fi)
+    sources = []  # (cfg start nodes, loop head / own node, ast node, Flow uses, base projection, complete?)
+    for call, kind in K.removal_sites(ctx.prog, fi, field):
+        pn = cfg.loc1(call)
+        uses = K.Flow(ctx.prog).from_expr(fi, call)
+        base = () if kind == "pop" else (1,)
+        in_loop = pn in cfg.reach({pn}, skip_labels=("exc",))
+        complete = in_loop and K.known_nonempty_at(cfg, fi.node, pn, field)
+        if not complete:
+            # `for k in list(t): v = t.pop(k)`: every key of a snapshot is removed
+            for lp in EF.enclosing_loops(call):
+                if isinstance(lp, ast.While):
+                    continue
+                EF.filters, EF.snapshot = [], False
+                el = EF.elements(lp.iter)
+                key = call.args[0] if (isinstance(call.func, ast.Attribute) and call.args) else None
+                if len(el) == 1 and el[0] is not None and el[0][0] == "src" and el[0][1] == field and el[0][2] in ("key", "iter") and not el[0][3] and EF.snapshot and not EF.filters \
+                        and key is not None and EF.shape(key) == el[0] and K.runs_every_round(cfg, pn, lp):
+                    complete = True
+        sources.append(({pn}, pn, call, uses, base, complete, "removal"))
+    for lp in [n for n in walk_no_nested(fi.node) if isinstance(n, (ast.For, ast.AsyncFor))]:
+        EF.filters, EF.snapshot = [], False
+        el = EF.elements(lp.iter)
+        if len(el) != 1 or el[0] is None:
+            continue
+        s = el[0]
+        base = None
+        if s[0] == "src" and s[1] == field and s[2] == "val" and not s[3]:
+            base = ()
+        elif s[0] == "tup" and len(s[1]) == 2 and s[1][1] == ("src", field, "val", ()):
+            base = (1,)
+        if base is None:
+            continue
+        head = cfg.loc1(lp)
+        starts = {d for d, lab in cfg.succ[head] if lab == "T"}
+        uses = K.Flow(ctx.prog).from_target(fi, lp, lp.target)
+        complete = EF.snapshot and not EF.filters and not K.loop_leaves_early(lp)
+        sources.append((starts, head, lp, uses, base, complete, "visit"))
+    ctx.ob("%s are taken out of the table one by one" % what, bool(sources), fi, sources[0][2] if sources else fi.node, construct=stmt_text(sources[0][2]) if sources else "def shutdown: %s" % table)
+    for starts, again, node, uses, base, complete, kind in sources:
+        ctx.ob("removal runs in a loop that continues while the table is non-empty", complete, fi, node,
+               detail=None if complete else "%s of %s neither in a loop guarded by its non-emptiness nor in a loop over a snapshot of all its entries" % (kind, table))
+        treats = check_event(cfg, node, uses, base)
+        if kind == "removal":
+            # from the removal, neither the removal itself (next round of the loop) nor the end of shutdown is
+            # reached without passing the treatment (which may be part of the removing statement itself)
+            r = set() if again in treats else cfg.reach({again}, avoid=set(treats), skip_labels=("exc",))
+        else:
+            # from the start of the loop body, neither the loop head nor the end of shutdown ...
+            r = cfg.reach(starts, avoid=set(treats), skip_labels=("exc",), include_src=True)
+        ok = bool(treats) and again not in r and cfg.exit not in r
+        ctx.ob(base_event, ok, fi, node)
     for n in nones:
         nn = cfg.loc1(n)
-        ok = guarded_by(cfg, nn, field, False) or not pops
-        ctx.ob("the table is retired only after it has been drained", ok and all(cfg.exists_path(cfg.loc1(p), nn) for _, p in pops), fi, n)
+        drained = K.known_empty_at(cfg, fi.node, nn, field)
+        if not drained:
+            # after a complete loop over a snapshot of all entries
+            for starts, again, node, uses, base, complete, kind in sources:
+                if complete and isinstance(node, (ast.For, ast.AsyncFor)) and any(cfg.nodes[d].kind == "F" and cfg.dominates(d, nn) for d, lab in cfg.succ[again] if lab == "F"):
+                    drained = True
+                if complete and kind == "removal":
+                    for lp in EF.enclosing_loops(node):
+                        if isinstance(lp, (ast.For, ast.AsyncFor)) and any(cfg.nodes[d].kind == "F" and cfg.dominates(d, nn) for d, lab in cfg.succ[cfg.loc1(lp)] if lab == "F"):
+                            drained = True
+        after = all(cfg.exists_path(min(starts), nn) for starts, *_ in sources)
+        ctx.ob("the table is retired only after it has been drained", (drained or not sources) and after, fi, n)
     return nones
 
 
@@ -91,35 +220,36 @@ def _drain(ctx, fi, table, what, check_item):
 def b(ctx):
     fi = ctx.prog.func(TM + "shutdown")
 
-    def inc_item(cfg, p, pn):
-        st = cfg.nodes[pn].ast
-        stop = None
-        if isinstance(st, ast.Assign) and isinstance(st.targets[0], (ast.Tuple, ast.List)) and len(st.targets[0].elts) == 2 and isinstance(st.targets[0].elts[1], ast.Name):
-            stop = st.targets[0].elts[1].id
-        calls = [cfg.loc1(c) for c, _ in find("%s()" % stop, fi.node)] if stop else []
-        # from the pop, the next loop test or exit cannot be reached without calling the stopper
-        tests = [n.id for n in cfg.nodes if n.kind == "test" and chain(n.ast) == "self.incoming_requests"]
-        r = cfg.reach({pn}, avoid=set(calls), skip_labels=("exc",))
-        ctx.ob("the stopper of every removed incoming request is called (server handlers are cancelled)", bool(calls) and not (set(tests) & r) and cfg.exit not in r, fi, p)
+    def where(cfg, u):
+        """CFG node of shutdown() at which the use happens: the use itself, or the call of the helper the value was
+        passed to -- provided every normal path through that helper passes the use"""
+        if u.site is None:
+            return [cfg.loc1(u.node)] if u.fi is fi else []
+        c2 = cfg_of(u.fi)
+        return [cfg.loc1(u.site)] if c2.must_pass(c2.entry, [c2.loc1(u.node)]) else []
 
-    def out_item(cfg, p, pn):
-        st = cfg.nodes[pn].ast
-        req = st.targets[0].id if isinstance(st, ast.Assign) and isinstance(st.targets[0], ast.Name) else None
-        calls = []
-        for c, bnd in (find("%s.add_exception($e)" % req, fi.node) if req else []):
-            e = bnd["e"]
-            cls = ctx.prog.resolve_in_module(fi.module, chain(e.func) or "?") if isinstance(e, ast.Call) else None
+    def inc_item(cfg, node, uses, base):
+        # the second component of the removed (pipe, stopper) pair is called
+        return [n for u in uses if u.kind == "called" and u.proj == base + (1,) for n in where(cfg, u)]
+
+    def out_item(cfg, node, uses, base):
+        treats = []
+        for u in uses:
+            if not (u.kind == "method" and u.what == "add_exception" and u.proj == base and u.node.args and where(cfg, u)):
+                continue
+            e = resolve_local(u.fi.node, u.node.args[0])
+            cls = ctx.prog.resolve_in_module(u.fi.module, chain(e.func) or "?") if isinstance(e, ast.Call) else None
             okc = cls is not None and ctx.prog.is_subclass(cls, "aiocoap.error.LibraryShutdown") and ctx.prog.is_subclass(cls, "aiocoap.error.Error")
-            ctx.ob("pending requests are failed with LibraryShutdown (a library Error)", okc, fi, c, detail=str(cls))
-            calls.append(cfg.loc1(c))
-        tests = [n.id for n in cfg.nodes if n.kind == "test" and chain(n.ast) == "self.outgoing_requests"]
-        r = cfg.reach({pn}, avoid=set(calls), skip_labels=("exc",))
-        ctx.ob("every removed outgoing request receives the shutdown error", bool(calls) and not (set(tests) & r) and cfg.exit not in r, fi, p)
+            ctx.ob("pending requests are failed with LibraryShutdown (a library Error)", okc, u.fi, u.node, detail=str(cls))
+            treats.extend(where(cfg, u))
+        return treats
 
-    n1 = _drain(ctx, fi, "incoming_requests", "incoming requests", inc_item)
-    n2 = _drain(ctx, fi, "outgoing_requests", "outgoing requests", out_item)
+    n1 = _drain(ctx, fi, "incoming_requests", "incoming requests", "the stopper of every removed incoming request is called (server handlers are cancelled)", inc_item)
+    n2 = _drain(ctx, fi, "outgoing_requests", "outgoing requests", "every removed outgoing request receives the shutdown error", out_item)
     cfg = cfg_of(fi)
-    lower = [n for n in walk_no_nested(fi.node) if isinstance(n, ast.Await) and isinstance(n.value, ast.Call) and call_name(n.value) == "self.token_interface.shutdown"]
+    lower = [n for n in walk_no_nested(fi.node) if isinstance(n, ast.Await) and isinstance(resolve_local(fi.node, n.value), ast.Call)
+             and K.chain_of(fi.node, resolve_local(fi.node, n.value).func.value if isinstance(resolve_local(fi.node, n.value).func, ast.Attribute) else None) == "self.token_interface"
+             and resolve_local(fi.node, n.value).func.attr == "shutdown"]
     ctx.ob("the lower layer's shutdown is awaited", bool(lower) and cfg.must_pass(cfg.entry, [cfg.loc1(l) for l in lower]), fi, lower[0] if lower else fi.node, construct=stmt_text(lower[0]) if lower else "def shutdown")
     for l in lower:
         ln = cfg.loc1(l)
@@ -131,100 +261,127 @@ def b(ctx):
     ctx.ob("LibraryShutdown derives from the library's error base class", ctx.prog.is_subclass(ci.qn, "aiocoap.error.Error"), None, None, construct="class LibraryShutdown")
 
 
+def _effects(m):
+    """what a run did to the world: calls the interpreter could not look into, stores outside the locals,
+    transmissions -- everything but logging and the construction of objects"""
+    return [t for t in m.trace if t[0] in ("call", "setattr", "setitem", "delete", "table-store", "table-remove", "queue", "send", "exchange")]
+
+
+def _show_effect(t):
+    return "%s %s" % (t[0], t[1])
+
+
+def _alive_runs(ctx, fi, table_attr, others=()):
+    """All runs with `self.<table_attr>` an (alive) empty table and the other tables unknown."""
+    ps = params(fi)
+
+    def make_env():
+        me = K.Obj("self", **dict({table_attr: K.DictVal(table_attr, "empty")}, **{o: K.DictVal(o, "unknown") for o in others}))
+        env = {"self": me}
+        for p in ps:
+            env[p] = K.Obj("argument " + p)
+        return env
+
+    return K.explore(ctx.prog, fi, make_env, {}, {}, {}, record_all=True, max_runs=4096)
+
+
+def _retired_runs(ctx, fi, table_attr, extra_self=None):
+    """All runs of fi in the checker's own interpreter with `self.<table_attr>` retired (None): one run per way
+    of answering the conditions this leaves open.  Path-sensitive by construction: a flag set in one branch and
+    tested later, a guard moved into a helper, early return vs. nesting, the spelling of the None test -- none of
+    them matters, only what is executed."""
+    ps = params(fi)
+
+    def make_env():
+        me = K.Obj("self", **dict({table_attr: None}, **(extra_self or {})))
+        env = {"self": me}
+        for p in ps:
+            env[p] = K.Obj("argument " + p)
+        return env
+
+    return K.explore(ctx.prog, fi, make_env, {}, {}, {}, record_all=True)
+
+
 @R.clause("C18.c", "TokenManager.request fails at once with LibraryShutdown after shutdown, before doing anything else")
 def c(ctx):
     fi = ctx.prog.func(TM + "request")
+    ctx.need(len(params(fi)) >= 1, "request(self, request) expected")
     rq = params(fi)[0]
-    cfg = cfg_of(fi)
-    ts = [n.id for n in cfg.nodes if n.kind == "T" and match("self.outgoing_requests is None", n.ast) is not None] + \
-         [n.id for n in cfg.nodes if n.kind == "F" and match("self.outgoing_requests is not None", n.ast) is not None]
-    ctx.ob("request() tests whether the context has been shut down", bool(ts), fi, fi.node, construct="def request")
-    for t in ts:
-        test = [p for p, _ in cfg.pred[t]][0]
-        effects_before = [n for n in cfg.stmt_nodes() if n.id != test and cfg.dominates(n.id, test) and n.kind != "test" and not (isinstance(n.ast, ast.Expr) and isinstance(n.ast.value, ast.Constant)) and not _only_logs(n.ast)]
-        ctx.ob("the shutdown test precedes every other statement of request()", not effects_before, fi, effects_before[0].ast if effects_before else cfg.nodes[test].ast)
-        for n in cfg.stmt_nodes():
-            if n.id != test and n.kind != "test" and not cfg.dominates(test, n.id) and cfg.is_reachable(n.id) and not (isinstance(n.ast, ast.Expr) and isinstance(n.ast.value, ast.Constant)) and not _only_logs(n.ast):
-                ctx.ob("no statement of request() bypasses the shutdown test", False, fi, n.ast)
-        r = cfg.reach({t})
-        adds = []
-        for cnode, bnd in find("%s.add_exception($e)" % rq, fi.node):
-            if cfg.loc1(cnode) in r and cfg.dominates(t, cfg.loc1(cnode)):
-                e = bnd["e"]
-                cls = ctx.prog.resolve_in_module(fi.module, chain(e.func) or "?") if isinstance(e, ast.Call) else None
-                if cls and ctx.prog.is_subclass(cls, "aiocoap.error.LibraryShutdown"):
-                    adds.append(cfg.loc1(cnode))
-        ctx.ob("after shutdown the request is failed with LibraryShutdown on every path", bool(adds) and cfg.must_pass(t, adds), fi, cfg.nodes[t].ast)
-        sends = [cfg.loc1(c_) for c_ in calls_in(fi.node) if (call_name(c_) or "").endswith("send_message")] + [cfg.loc1(n) for k, n in stores_to(fi.node, "self.outgoing_requests", nested=False)]
-        ctx.ob("after shutdown nothing is registered or sent", not (set(sends) & r), fi, cfg.nodes[t].ast)
+    runs = _retired_runs(ctx, fi, "outgoing_requests", {"incoming_requests": None})
+    ctx.floor("runs of request() on a shut-down token manager", len(runs), 1)
+    bad = None
+    for m in runs:
+        eff = _effects(m)
+        fails = [t for t in eff if t[0] == "call" and t[1] == "add_exception" and isinstance(t[2], K.Obj) and t[2].tag == "argument " + rq and len(t[3]) == 1
+                 and isinstance(t[3][0], K.Obj) and ctx.prog.is_subclass(t[3][0].attrs.get("__class__", "?"), "aiocoap.error.LibraryShutdown")]
+        if not (m.outcome == "return" and len(fails) == 1 and len(eff) == 1):
+            bad = (m, eff, fails)
+            break
+    if bad is None:
+        ctx.ob("after shutdown request() fails the request with LibraryShutdown and does nothing else (every path)", True, fi, fi.node, construct="request() after shutdown")
+    else:
+        m, eff, fails = bad
+        others = [t for t in eff if t not in fails]
+        if m.outcome != "return":
+            what, msg = "request() after shutdown: %s" % m.outcome, "after shutdown request() returns normally"
+        elif not fails:
+            what, msg = "request() after shutdown: %s" % ([_show_effect(t) for t in eff] or "nothing happens"), "after shutdown the request is failed with LibraryShutdown on every path"
+        else:
+            what, msg = "request() after shutdown also does: %s" % [_show_effect(t) for t in others][:4], "after shutdown nothing is registered or sent, the shutdown test precedes every other effect of request()"
+        ctx.ob(msg, False, fi, fi.node, construct=what, detail="open conditions: %s" % (", ".join("%s=%s" % d for d in m.decisions) or "none"))
+    ctx.extra["request_after_shutdown_runs"] = len(runs)
+    # ... and only then: a token manager that is alive (its table merely empty) does not refuse requests.  (Without
+    # this, "fails after shutdown" would also be met by a guard on the table's emptiness.)
+    alive = _alive_runs(ctx, fi, "outgoing_requests", ("incoming_requests",))
+
+    def refuses(m):
+        return any(t[0] == "call" and t[1] == "add_exception" and len(t[3]) == 1 and isinstance(t[3][0], K.Obj)
+                   and ctx.prog.is_subclass(t[3][0].attrs.get("__class__", "?"), "aiocoap.error.LibraryShutdown") for t in m.trace)
+    wrong = [m for m in alive if refuses(m)]
+    ctx.ob("request() refuses with LibraryShutdown only when the table is retired (not when it is merely empty)", not wrong, fi, fi.node, construct="request() on an idle, alive token manager",
+           detail=None if not wrong else "open conditions: %s" % (", ".join("%s=%s" % d for d in wrong[0].decisions) or "none"))
+
+
+def _owner_key(chain_text, path):
+    return (chain_text, None if not path else (path[0] if len(path) == 1 else tuple(path)))
 
 
 def _cancel_walks(ctx, sh):
-    """{(field, tuple position or None)} for which MessageManager.shutdown
-    iterates the container and calls .cancel() on that element."""
+    """{(field, tuple position or None)}: MessageManager.shutdown calls .cancel() on that component
+    of *every* element of the container.
+
+    Decided by element flow from the receiver of each `.cancel()` call back to the container it is
+    an element of: through for targets, tuple unpacking, constant subscripts, `.values()` /
+    `.items()`, `list()/tuple()/sorted()` snapshots, comprehensions and generator expressions bound
+    to locals, loop + append builders, concatenations.  A walk only counts if nothing filters the
+    elements (no `if` in a comprehension, no condition around the append or the cancel, no
+    break/return out of the loop) -- or if the loop drains the container until it is empty."""
     out = set()
-    for loop in [n for n in walk_no_nested(sh.node) if isinstance(n, ast.For)]:
-        it = loop.iter
-        base = it
-        mode = "keys"
-        if isinstance(it, ast.Call) and isinstance(it.func, ast.Attribute) and it.func.attr in ("values", "items"):
-            base = it.func.value
-            mode = it.func.attr
-        if isinstance(base, ast.Call) and chain(base.func) in ("list", "tuple") and base.args:
-            inner = base.args[0]
-            if isinstance(inner, ast.Call) and isinstance(inner.func, ast.Attribute) and inner.func.attr in ("values", "items"):
-                mode = inner.func.attr
-                base = inner.func.value
-        field = chain(base)
-        if not field or not field.startswith("self."):
+    EF = K.ElemFlow(sh)
+    cfg = cfg_of(sh)
+    for c in calls_in(sh.node):
+        if not (isinstance(c.func, ast.Attribute) and c.func.attr == "cancel" and not c.args):
             continue
-        tgt = loop.target
-        val_t = tgt
-        if mode == "items":
-            if isinstance(tgt, ast.Tuple) and len(tgt.elts) == 2:
-                val_t = tgt.elts[1]
-            else:
+        EF.filters = []
+        alts = K.flatten(EF.shape(c.func.value))
+        if EF.filters or not alts or any(s is None or s[0] != "src" or s[2] != "val" for s in alts):
+            continue
+        nid = cfg.loc1(c)
+        loops = EF.enclosing_loops(c)
+        if not loops or not K.runs_every_round(cfg, nid, loops[0]) or any(not K.runs_every_round(cfg, cfg.loc1(i), o) for i, o in zip(loops, loops[1:])):
+            continue
+        if not K.always_runs(cfg, loops[-1]):
+            continue
+        conds = K.inner_conditions(cfg, nid, loops)
+        if conds:
+            # only the condition of a draining `while <container is non-empty>` loop is acceptable
+            if len(alts) != 1 or not all((K.nonempty_test(sh.node, e) or (None, None))[0] == alts[0][1] for e, pol in conds):
                 continue
-        elif mode == "keys":
-            continue
-        for c in calls_in(loop):
-            if isinstance(c.func, ast.Attribute) and c.func.attr == "cancel":
-                recv = c.func.value
-                if isinstance(val_t, (ast.Tuple, ast.List)):
-                    for i, e in enumerate(val_t.elts):
-                        if same(e, recv):
-                            out.add((field, i))
-                elif same(val_t, recv):
-                    out.add((field, None))
-                elif isinstance(recv, ast.Subscript) and same(recv.value, val_t) and isinstance(recv.slice, ast.Constant):
-                    out.add((field, recv.slice.value))
+            if not (K.known_nonempty_at(cfg, sh.node, nid, alts[0][1]) and any(isinstance(lp, ast.While) for lp in loops)):
+                continue
+        for s in alts:
+            out.add(_owner_key(s[1], s[3]))
     return out
-
-
-def _inert_callback(fi, cb, rest):
-    """Callbacks that only remove a key from a dict of the same object."""
-    if match("functools.partial(self.$f.pop, $*a)", cb) is not None:
-        return True
-    if match("self.$f.pop", cb) is not None:
-        return True
-    if isinstance(cb, ast.Lambda) and match("self.$f.pop($*a)", cb.body) is not None:
-        return True
-    return False
-
-
-def _inert_target(cb, rest):
-    """(field name, pop has a default) of an inert callback."""
-    m = match("functools.partial(self.$f.pop, $*a)", cb)
-    if m is not None:
-        return m["f"], len(m["a"]) + len(rest) >= 2
-    m = match("self.$f.pop", cb)
-    if m is not None:
-        return m["f"], len(rest) >= 2
-    if isinstance(cb, ast.Lambda):
-        m = match("self.$f.pop($*a)", cb.body)
-        if m is not None:
-            return m["f"], len(m["a"]) >= 2
-    return None, True
 
 
 @R.clause("C18.d", "timer ownership: every call_later handle of the message layer is cancelled by shutdown or its callback is inert")
@@ -240,18 +397,29 @@ def d(ctx):
             if isinstance(c.func, ast.Attribute) and c.func.attr in ("call_later", "call_at") :
                 sites.append((fi, c))
     ctx.floor("call_later sites in messagemanager.py", len(sites), 3)
+    # callbacks that only forget a key of a dict of the same object -- lambda, nested def, functools.partial,
+    # bound method, with or without default-argument binding are the same thing
+    inert = {}
+    own_nodes = set()
     for fi, c in sites:
         cb = c.args[1] if len(c.args) > 1 else None
-        rest = c.args[2:]
-        if cb is not None and _inert_callback(fi, cb, rest):
+        rem = K.callback_removals(ctx.prog, fi, cb, nextra=len(c.args) - 2) if cb is not None and not any(isinstance(x, ast.Starred) for x in c.args) else None
+        if rem:
+            inert[id(c)] = rem
+            for fld, may_raise, node in rem:
+                own_nodes.add(id(node))
+                own_nodes.add(id(getattr(node, "func", None)))
+    for fi, c in sites:
+        if id(c) in inert:
             ctx.ob("timer callback is inert (only forgets a key of the same object)", True, fi, c)
-            # ... and cannot raise after shutdown: `pop(key)` without a default is safe only while nothing
-            # else ever removes entries from that dict
-            fld, has_default = _inert_target(cb, rest)
-            if fld is not None and not has_default:
+            # ... and cannot raise after shutdown: a removal that raises KeyError on a missing key (`pop(key)`
+            # without default, `del d[key]`) is safe only while nothing else ever removes entries from that dict
+            for fld in sorted({f for f, may_raise, _ in inert[id(c)] if may_raise}):
                 removers = []
                 for fn, hits in field_writers(ctx.prog, fld).items():
                     for kind, node in hits:
+                        if id(node) in own_nodes:
+                            continue
                         if kind in ("pop", "popitem", "clear", "delitem", "del", "remove", "discard") or (kind == "assign" and not fn.endswith(".__init__")):
                             removers.append((fn, kind, node))
                 if removers:
@@ -261,65 +429,42 @@ def d(ctx):
                 else:
                     ctx.ob("a pending inert timer cannot raise: no other code removes entries of %s" % fld, True, fi, c)
             continue
-        owners = _handle_owners(ctx, fi, c, depth=0)
-        ok = any(o in walks for o in owners)
+        owners = set()
+        ok = _handle_owned(ctx, fi, c, walks, owners)
         ctx.ob("the timer handle is kept where MessageManager.shutdown cancels it", ok, fi, c,
                detail="handle stored in %s; shutdown cancels %s" % (sorted(map(str, owners)) or "nothing", sorted(map(str, walks)) or "nothing"))
     # shutdown retires _active_exchanges
-    nones = [n for k, n in stores_to(sh.node, "self._active_exchanges", nested=False) if k == "assign" and isinstance(n.value, ast.Constant) and n.value.value is None]
+    nones = _retire_stores(sh, "self._active_exchanges")
     ctx.ob("MessageManager.shutdown retires _active_exchanges (None marks 'shutting down')", bool(nones), sh, nones[0] if nones else sh.node, construct=stmt_text(nones[0]) if nones else "def shutdown")
     cfg = cfg_of(sh)
     lower = [n for n in walk_no_nested(sh.node) if isinstance(n, ast.Await)]
     for n in nones:
         for l in lower:
             ctx.ob("timers are cancelled and the table retired before the first suspension point", cfg.dominates(cfg.loc1(n), cfg.loc1(l)), sh, n)
-    ctx.ob("the message interface's shutdown is awaited", any(isinstance(l.value, ast.Call) and call_name(l.value) == "self.message_interface.shutdown" for l in lower), sh, sh.node, construct="def shutdown")
+
+    def is_mi_shutdown(l):
+        v = resolve_local(sh.node, l.value)
+        return isinstance(v, ast.Call) and isinstance(v.func, ast.Attribute) and v.func.attr == "shutdown" and K.chain_of(sh.node, v.func.value) == "self.message_interface"
+    ctx.ob("the message interface's shutdown is awaited", any(is_mi_shutdown(l) for l in lower), sh, sh.node, construct="def shutdown")
 
 
-def _handle_owners(ctx, fi, call, depth):
-    """Where does the value of `call` end up?  Returns {(field, position)}."""
-    owners = set()
-    cfg = cfg_of(fi)
-    p = cfg.parent.get(id(call))
-    names = []
-    if isinstance(p, ast.Assign) and len(p.targets) == 1 and isinstance(p.targets[0], ast.Name):
-        names.append(p.targets[0].id)
-    elif isinstance(p, ast.Return):
-        # returned: follow callers one level
-        if depth < 2:
-            for f2 in ctx.prog.funcs.values():
-                if f2.module is not fi.module:
-                    continue
-                for c2 in calls_in(f2.node):
-                    if isinstance(c2.func, ast.Attribute) and c2.func.attr == fi.name and chain(c2.func.value) == "self":
-                        owners |= _handle_owners(ctx, f2, c2, depth + 1)
-        return owners
-    elif isinstance(p, ast.Tuple):
-        pp = cfg.parent.get(id(p))
-        if isinstance(pp, ast.Assign) and isinstance(pp.targets[0], ast.Subscript):
-            f = chain(pp.targets[0].value)
-            if f:
-                owners.add((f, p.elts.index(call)))
-        return owners
-    for nm in names:
-        for n in walk_no_nested(fi.node):
-            if isinstance(n, ast.Assign) and isinstance(n.targets[0], ast.Subscript):
-                f = chain(n.targets[0].value)
-                v = n.value
-                if f and isinstance(v, ast.Tuple):
-                    for i, e in enumerate(v.elts):
-                        if isinstance(e, ast.Name) and e.id == nm:
-                            owners.add((f, i))
-                elif f and isinstance(v, ast.Name) and v.id == nm:
-                    owners.add((f, None))
-            if isinstance(n, ast.Return) and isinstance(n.value, ast.Name) and n.value.id == nm and depth < 2:
-                for f2 in ctx.prog.funcs.values():
-                    if f2.module is not fi.module:
-                        continue
-                    for c2 in calls_in(f2.node):
-                        if isinstance(c2.func, ast.Attribute) and c2.func.attr == fi.name and chain(c2.func.value) == "self":
-                            owners |= _handle_owners(ctx, f2, c2, depth + 1)
-    return owners
+def _handle_owned(ctx, fi, call, walks, owners, depth=0, wrap=()):
+    """Does the value of `call` end up where shutdown cancels it?  Forward value flow through locals (reaching
+    definitions), tuple packing, conditional expressions, helper parameters, into the container element it is stored
+    in (`d[k] = ...`, `d.setdefault(k, ...)`, `l.append(...)`).  A value that is returned must be owned at *every*
+    call of the returning function (a caller that drops it leaves a timer nobody can cancel).  `owners` collects
+    {(field, position)} for the report."""
+    uses = K.Flow(ctx.prog, follow_returns=False).from_expr(fi, call, wrap=wrap)
+    mine = {_owner_key(u.what, u.wrap) for u in uses if u.kind == "stored" and u.what and not u.proj}
+    owners |= mine
+    if mine & walks:
+        return True
+    returned = {u.wrap for u in uses if u.kind == "returned" and not u.proj}
+    if returned and depth < 3:
+        callers = K.callers_of(ctx.prog, fi)
+        # (returned bare or inside a tuple: the position inside the returned value travels along)
+        return bool(callers) and all(any(_handle_owned(ctx, f2, c2, walks, owners, depth + 1, w) for w in returned) for f2, c2 in callers)
+    return False
 
 
 @R.clause("C18.g", "every running server handler is in the table shutdown drains: a request overriding the same (token, remote) stops and removes the old entry before the new one is stored (shared with C08.e)")
@@ -334,19 +479,22 @@ def g_shared(ctx):
 
 @R.clause("C18.e", "late errors after shutdown are tolerated: dispatch_error returns at once when the tables are retired")
 def e(ctx):
-    for short, table in ((MM + "dispatch_error", "self._active_exchanges"), (TM + "dispatch_error", "self.outgoing_requests")):
+    for short, table in ((MM + "dispatch_error", "_active_exchanges"), (TM + "dispatch_error", "outgoing_requests")):
         fi = ctx.prog.func(short)
-        cfg = cfg_of(fi)
-        ts = [n.id for n in cfg.nodes if n.kind == "T" and match("%s is None" % table, n.ast) is not None] + \
-             [n.id for n in cfg.nodes if n.kind == "F" and match("%s is not None" % table, n.ast) is not None]
-        ctx.ob("%s tests for the retired table" % fi.short, bool(ts), fi, fi.node, construct="def dispatch_error")
-        for t in ts:
-            test = [p for p, _ in cfg.pred[t]][0]
-            before = [n for n in cfg.stmt_nodes() if n.id != test and cfg.dominates(n.id, test) and n.kind != "test" and not (isinstance(n.ast, ast.Expr) and isinstance(n.ast.value, ast.Constant)) and not _only_logs(n.ast)]
-            ctx.ob("the retired-table test is the first thing dispatch_error does", not before, fi, before[0].ast if before else cfg.nodes[test].ast)
-            r = cfg.reach({t})
-            bad = [n for n in r if cfg.nodes[n].kind in ("stmt", "raise", "for", "with", "test") and not _only_logs(cfg.nodes[n].ast)]
-            ctx.ob("with retired tables dispatch_error does nothing but return (no raise in the event loop)", not bad and cfg.rexit not in cfg.reach({t}, skip_labels=("exc",)), fi, cfg.nodes[bad[0]].ast if bad else cfg.nodes[t].ast)
+        runs = _retired_runs(ctx, fi, table, {"incoming_requests": None} if table == "outgoing_requests" else None)
+        ctx.floor("runs of %s with retired tables" % fi.short, len(runs), 1)
+        bad = next(((m, _effects(m)) for m in runs if m.outcome != "return" or _effects(m)), None)
+        if bad is None:
+            ctx.ob("with retired tables %s does nothing but return (no raise in the event loop)" % fi.short, True, fi, fi.node, construct="%s after shutdown" % fi.short)
+        else:
+            m, eff = bad
+            ctx.ob("with retired tables dispatch_error does nothing but return (no raise in the event loop)", False, fi, fi.node,
+                   construct="%s after shutdown: %s" % (fi.short, m.outcome if m.outcome != "return" else [_show_effect(t) for t in eff][:4]),
+                   detail="open conditions: %s" % (", ".join("%s=%s" % d for d in m.decisions) or "none"))
+        # the tolerance is specific to retired tables: an alive layer whose table is merely empty still passes the error on
+        alive = _alive_runs(ctx, fi, table, ("incoming_requests", "_backlogs") if table == "outgoing_requests" else ("_backlogs",))
+        ctx.ob("%s ignores errors only when the table is retired (not when it is merely empty)" % fi.short, any(_effects(m) for m in alive), fi, fi.node,
+               construct="%s on an idle, alive layer" % fi.short)
 
 
 def _only_logs(st):
@@ -354,40 +502,88 @@ def _only_logs(st):
         return True
     if isinstance(st, ast.Expr) and isinstance(st.value, ast.Call) and is_log_call(st.value):
         return True
+    if isinstance(st, ast.Expr) and isinstance(st.value, ast.Constant):
+        return True
     return False
+
+
+F_CONSTS = {t: K.Sym(t) for t in ("CON", "NON", "ACK", "RST")}
+F_CONSTS["EMPTY"] = 0
 
 
 @R.clause("C18.f", "while shutting down send_message degrades every outgoing message to NON (no new exchange)")
 def f(ctx):
-    from . import c10
-    from ..absdom import Interp, Sym, code_predicates
+    """Decided by running send_message (and the helpers it calls, down to the transmission / exchange-creation
+    primitives) in the checker's own finite-domain interpreter for every valuation of (code class) x (preset type) x
+    (multicast) x (reliability) x (type of the request answered) with `self._active_exchanges is None`, no pending
+    piggy-back opportunity and an *unknown* backlog table: conditions the valuation leaves open fork the run, so the
+    verdict holds for every path, whatever the nesting, guard order, helper structure or spelling of the lookups
+    (`in`, `.get()`, `.pop(k, None)`, `[...]` + KeyError).  On every run exactly one message goes to the wire, its
+    type at that moment is NON, nothing is queued in a backlog and no exchange is created."""
     import itertools
-    preds = code_predicates(ctx.prog)
     fi = ctx.prog.func(MM + "send_message")
-    m = params(fi)[0]
+    ps = params(fi)
+    ctx.need(len(ps) >= 1, "send_message(message, ...) expected")
+    # the primitives: putting a message on the wire, creating an exchange (retransmission timer + table entry)
+    sinks = {("self", "_send_via_transport"): "send", ("self", "_add_exchange"): "exchange", ("message_interface", "send"): "send"}
+    for s in ("_send_via_transport", "_add_exchange"):
+        ctx.need(ctx.prog.has_func(MM + s), "transmission primitive MessageManager.%s missing" % s)
     rows = 0
+    nruns = 0
     for code, preset, mcast, rel, reqt in itertools.product((1, 69), (None, "CON", "NON"), (False, True), (True, False, None), (None, "CON")):
         if code == 1 and reqt:
             continue
-        env = {
-            m + ".mid": None, m + ".code": code, m + ".mtype": Sym(preset) if preset else None,
-            m + ".opt.no_response": None, m + ".remote": ("object", "remote"), m + ".token": ("object", "token"),
-            m + ".remote.is_multicast": mcast, m + ".transport_tuning.reliability": rel,
-            m + ".request": ("object", "request") if reqt else None, m + ".request.mtype": Sym(reqt) if reqt else None,
-            "self._active_exchanges": None,
-        }
-        calls = [("$k in self._piggyback_opportunities", False), ("$k not in self._piggyback_opportunities", True),
-                 ("$r in self._backlogs", False), ("$r not in self._backlogs", True), ("$x.as_response_address()", ("object", "response-address"))]
-        it = Interp(fi, env, calls, preds, c10.CONSTS, c10.send_effect(fi, m))
-        it.run()
+
+        def make_env():
+            # the code is an object whose class predicates the valuation fixes (what they mean is C10's business)
+            cobj = K.Obj("code %d" % code, class_=code >> 5, __methods__={"is_request": 1 <= code < 32, "is_response": 64 <= code < 192,
+                                                                        "is_successful": 64 <= code < 96, "is_signalling": code >= 224})
+            msg = K.Obj("message", mid=None, code=cobj, mtype=K.Sym(preset) if preset else None,
+                        opt=K.Obj("opt", no_response=None), remote=K.Obj("remote", is_multicast=mcast), token=K.Obj("token"),
+                        transport_tuning=K.Obj("tuning", reliability=rel),
+                        request=K.Obj("request", mtype=K.Sym(reqt)) if reqt else None)
+            me = K.Obj("self", _active_exchanges=None, _piggyback_opportunities=K.DictVal("_piggyback_opportunities", "empty"),
+                       _backlogs=K.DictVal("_backlogs", "unknown"), message_interface=K.Obj("message_interface"))
+            env = {"self": me, ps[0]: msg}
+            for p in ps[1:]:
+                env[p] = K.Obj("monitor")
+            return env
+
+        runs = K.explore(ctx.prog, fi, make_env, F_CONSTS, {}, sinks)
         rows += 1
-        sent = [t for t in it.trace if t[0] in ("send", "queue")]
-        ok = len(sent) == 1 and sent[0][0] == "send" and str(sent[0][1]) == "NON"
-        if not ok:
-            ctx.ob("during shutdown a message without pending acknowledgement is sent NON", False, fi, fi.node,
-                   construct="send_message during shutdown: %s" % (sent,), detail="code=%s preset=%s multicast=%s reliability=%s request=%s" % (code, preset, mcast, rel, reqt))
+        nruns += len(runs)
+        for m in runs:
+            sent = [t for t in m.trace if t[0] in ("send", "queue", "exchange") or (t[0] == "table-store" and t[1] in ("_backlogs", "_active_exchanges"))]
+            ok = m.outcome == "return" and len(sent) == 1 and sent[0][0] == "send" and isinstance(sent[0][3], K.Sym) and str(sent[0][3]) == "NON"
+            if not ok:
+                shown = [(t[0], str(t[3])) for t in sent]
+                ctx.ob("during shutdown a message without pending acknowledgement is sent NON", False, fi, fi.node,
+                       construct="send_message during shutdown: %s%s" % (shown, "" if m.outcome == "return" else " then " + str(m.outcome)),
+                       detail="code=%s preset=%s multicast=%s reliability=%s request=%s; open conditions: %s" % (code, preset, mcast, rel, reqt, ", ".join("%s=%s" % d for d in m.decisions) or "none"))
+                break
+    ctx.extra["shutdown_send_runs"] = nruns
     ctx.floor("shutdown rows", rows, 30)
     ctx.ob("all %d shutdown cells of send_message choose NON" % rows, True, fi, fi.node, construct="send_message during shutdown")
+
+
+FRESH_CONTAINERS = ("dict", "list", "set", "OrderedDict", "defaultdict", "deque", "WeakValueDictionary", "WeakKeyDictionary", "WeakSet")
+
+
+def _fresh_container(v):
+    """an expression that creates a new, empty-or-literal container each time it is evaluated"""
+    if isinstance(v, (ast.Dict, ast.List, ast.Set, ast.ListComp, ast.DictComp, ast.SetComp)):
+        return True
+    if isinstance(v, ast.Call) and (chain(v.func) or "").split(".")[-1] in FRESH_CONTAINERS:
+        # arguments may only be literals / type names (defaultdict(list)): nothing that could be shared
+        return all(isinstance(a, ast.Constant) or (isinstance(a, ast.Name) and a.id in FRESH_CONTAINERS) or _fresh_container(a) for a in v.args) and not v.keywords
+    return False
+
+
+def _used_once(fnode, v):
+    """a container that reaches the field through a local is still private if the local is read only there"""
+    if not isinstance(v, ast.Name):
+        return True
+    return sum(1 for n in ast.walk(fnode) if isinstance(n, ast.Name) and n.id == v.id and isinstance(n.ctx, ast.Load)) == 1
 
 
 @R.clause("C18.h", "other contexts are unaffected: the tables that shutdown drains and retires belong to the instance (created in __init__, no class-level container shared between contexts)")
@@ -401,8 +597,9 @@ def h_instance_state(ctx):
         init = ci.methods.get("__init__")
         ctx.need(init is not None, "%s.__init__ missing" % clsname)
         for f in fields:
-            st = [n for n in walk_no_nested(init.node) if isinstance(n, (ast.Assign, ast.AnnAssign)) and any(chain(t) == "self." + f for t in (n.targets if isinstance(n, ast.Assign) else [n.target])) and n.value is not None]
-            fresh = len(st) >= 1 and all(isinstance(n.value, (ast.Dict, ast.List, ast.Set)) or (isinstance(n.value, ast.Call) and chain(n.value.func) in ("dict", "list", "set", "collections.OrderedDict")) for n in st)
+            st = [n for k, n in stores_to(init.node, "self." + f, nested=False) if k == "assign" and isinstance(n, (ast.Assign, ast.AnnAssign)) and n.value is not None]
+            # one fresh container per store, not shared with another target of the same statement
+            fresh = len(st) >= 1 and all(_fresh_container(resolve_local(init.node, n.value)) and (not isinstance(n, ast.Assign) or len(n.targets) == 1) and _used_once(init.node, n.value) for n in st)
             ctx.ob("%s.%s is created afresh for every instance" % (clsname.split(".")[-1], f), fresh, init, st[0] if st else init.node,
                    construct="%s.__init__: self.%s" % (clsname.split(".")[-1], f))
             shared = ci.attrs.get(f)
@@ -429,6 +626,16 @@ R.seed("C18.d", F_MM, "        for _mid, empty_ack_timeout in self._piggyback_op
 R.seed("C18.e", F_MM, "                \"Internal shutdown sequence mismatch: error dispatched through messagemanager after shutown\"\n            )\n            return\n", "                \"Internal shutdown sequence mismatch: error dispatched through messagemanager after shutown\"\n            )\n", "late error crashes on None table")
 R.seed("C18.e", F_TM, "                \"Internal shutdown sequence msismatch: error dispatched through tokenmanager after shutdown\"\n            )\n            return\n", "                \"Internal shutdown sequence msismatch: error dispatched through tokenmanager after shutdown\"\n            )\n            raise RuntimeError(\"late\")\n", "late error raises in the loop")
 R.seed("C18.f", F_MM, "            if self._active_exchanges is None:\n                # during shutdown, this is all we can do\n                message.mtype = NON", "            if self._active_exchanges is None:\n                # during shutdown, this is all we can do\n                message.mtype = CON", "CON during shutdown")
+
+# seeds of the generalised clauses (each generalisation still bites)
+R.seed("C18.a", F_P, "                for ri in self.request_interfaces\n            ],\n            timeout=SHUTDOWN_TIMEOUT,", "                for ri in self.request_interfaces\n                if ri is not self.request_interfaces[-1]\n            ],\n            timeout=SHUTDOWN_TIMEOUT,", "one interface is left out by a comprehension filter")
+R.seed("C18.b", F_TM, "        while self.incoming_requests:\n            key = next(iter(self.incoming_requests.keys()))\n            (_, stop) = self.incoming_requests.pop(key)\n", "        for (_, stop) in self.incoming_requests.values():\n", "stoppers called while iterating the live table they remove entries from (RuntimeError after the first handler)")
+R.seed("C18.b", F_TM, "            (_, stop) = self.incoming_requests.pop(key)\n            # This cancels them", "            (stop, _) = self.incoming_requests.pop(key)\n            # This cancels them", "the pipe is called instead of the stopper")
+R.seed("C18.c", F_TM, "        if self.outgoing_requests is None:\n            request.add_exception(error.LibraryShutdown())\n            return\n\n        msg = request.request\n", "        if not self.outgoing_requests:\n            request.add_exception(error.LibraryShutdown())\n            return\n\n        msg = request.request\n", "guard on emptiness instead of retirement: an idle context refuses every request")
+R.seed("C18.d", F_MM, "            next_retransmission = self._schedule_retransmit(\n                message, timeout, retransmission_counter\n            )\n", "            self._schedule_retransmit(message, timeout, retransmission_counter)\n", "one caller drops the returned timer handle (the stale one is stored)")
+R.seed("C18.d", F_MM, "            cancellable.cancel()\n        self._active_exchanges = None\n", "            if messageerror_monitor is not None:\n                cancellable.cancel()\n        self._active_exchanges = None\n", "only monitored exchanges have their timer cancelled")
+R.seed("C18.e", F_TM, "    def dispatch_error(self, exception, remote):\n        if self.outgoing_requests is None:\n", "    def dispatch_error(self, exception, remote):\n        if not self.outgoing_requests:\n", "errors are swallowed whenever no client request is pending (server handlers never learn)")
+R.seed("C18.f", F_MM, "        if message.mtype == CON and message.remote in self._backlogs:\n", "        if message.remote in self._backlogs:\n", "NON messages queued behind a backlog that will never drain during shutdown")
 
 R.seed("C18.g", F_TM, "            (pipe, stop) = self.incoming_requests.pop(key)\n            stop()\n", "            (pipe, stop) = self.incoming_requests[key]\n", "overridden request neither removed nor stopped before the new entry is stored")
 
